@@ -236,6 +236,24 @@ func totalityOracle(c C05Case) (accepted bool, typ uint16, err error) {
 			return true, uint16(m.RecordType), fmt.Errorf("Data() succeeded but ToMapStr() has error=%v", ms1["error"])
 		}
 	}
+	// the maps and slices handed out are the caller's: emptied and scribbled on, they change nothing about what
+	// the next call returns (Data's map is documented to be the message's own and is left alone)
+	snapMs, snapTags := fmt.Sprint(ms2), fmt.Sprintf("%q", t2)
+	for k := range ms1 {
+		delete(ms1, k)
+	}
+	ms1["sequence"], ms1["extra"] = "edited", "x"
+	for k := range ms2 {
+		if k != "data" && k != "tags" {
+			ms2[k] = "edited"
+		}
+	}
+	if got := fmt.Sprint(m.ToMapStr()); got != snapMs {
+		return true, uint16(m.RecordType), fmt.Errorf("ToMapStr() after the caller edited the maps of earlier calls: %s, before: %s", got, snapMs)
+	}
+	if t3, _ := m.Tags(); fmt.Sprintf("%q", t3) != snapTags {
+		return true, uint16(m.RecordType), fmt.Errorf("Tags() differs between calls: %q vs %s", t3, snapTags)
+	}
 	return true, uint16(m.RecordType), nil
 }
 
